@@ -18,7 +18,7 @@ import (
 
 // replayCase is the JSON shape of the committed regression inputs in /verif/replays/C10/*.json.
 //
-//	kind "seq": ops "a<i>" = AllocateNAT(subscriber i), "d<i>" = DeallocateNAT(subscriber i), run through the full model
+//	kind "seq": ops "a<i>" = AllocateNAT(subscriber i), "d<i>" = DeallocateNAT(subscriber i), "T<s>" = s seconds of quiet (virtual time), run through the full model
 //	kind "dup": k concurrent AllocateNAT(sub) while AllocateNAT(helper) is parked at its last statement
 type replayCase struct {
 	Kind       string   `json:"kind"`
@@ -70,12 +70,21 @@ func TestReplayCases(t *testing.T) {
 				m = newModel(c.Config, e.pubs, c.LiteralLog)
 				for _, o := range c.Ops {
 					var sub int
+					if o[0] == 'T' { // "T<seconds>": a quiet period (bubble only)
+						var sec int
+						if _, err := fmt.Sscanf(o[1:], "%d", &sec); err == nil && bubble {
+							e.advance(time.Duration(sec) * time.Second)
+						}
+						continue
+					}
 					if _, err := fmt.Sscanf(o[1:], "%d", &sub); err != nil || sub < 0 || sub >= nSubs || (o[0] != 'a' && o[0] != 'd') {
 						m.fail(t, "C10/harness", "INCONCLUSIVE: %s: bad op %q", f, o)
 						break
 					}
 					if bubble && !c.Config.Prone {
 						time.Sleep(time.Second)
+						e.settle()
+						e.stampMtimes()
 					}
 					m.step(t, e, o[0] == 'a', sub, false)
 				}
@@ -85,7 +94,7 @@ func TestReplayCases(t *testing.T) {
 				m.finish(t, e)
 				e.close()
 			}
-			if c.Config.MaxFileSize > 0 || c.Config.Started {
+			if c.Config.MaxFileSize > 0 || c.Config.Started || c.Config.MaxAge > 0 {
 				synctest.Test(t, func(*testing.T) { run(true) })
 			} else {
 				run(false)
